@@ -181,14 +181,15 @@ func (w *World) coq() string {
 // ---------- project on disk ----------
 
 type Project struct {
-	Base     string // scenario directory (sentinel surroundings)
-	Root     string // project root
-	CacheDir string // absolute
-	CacheCfg string // what is written into the config ("" = default)
-	Xdg      string
-	Dud      string
-	StageFs  []string // stage file paths relative to Root
-	Env      []string
+	Base       string // scenario directory (sentinel surroundings)
+	Root       string // project root
+	CacheDir   string // absolute
+	CacheCfg   string // what is written into the config ("" = default)
+	Xdg        string
+	Dud        string
+	StageFs    []string // stage file paths relative to Root
+	Env        []string
+	lastRunlog []byte
 }
 
 func newProject(o *opts, base string, cacheLoc string) *Project {
@@ -379,7 +380,7 @@ func loadStage(abs string) *StageRec {
 }
 
 func (p *Project) observe() *World {
-	skip := map[string]bool{".dud": true}
+	skip := map[string]bool{".dud": true, ".runlog": true}
 	for _, s := range p.StageFs {
 		skip[s] = true
 	}
@@ -462,6 +463,12 @@ func (c Cmd) coq() string {
 		return fmt.Sprintf("CStageAdd %s", clist(ts))
 	case "stagerm":
 		return fmt.Sprintf("CStageRm %s", clist(ts))
+	case "graph":
+		return fmt.Sprintf("CGraph %s", clist(ts))
+	case "push":
+		return fmt.Sprintf("CPush %s %s", clist(ts), cbool(c.Single))
+	case "fetch":
+		return fmt.Sprintf("CFetch %s %s", clist(ts), cbool(c.Single))
 	}
 	panic("bad cmd " + c.Kind)
 }
@@ -493,6 +500,13 @@ func (c Cmd) argv() []string {
 		a = []string{"stage", "add"}
 	case "stagerm":
 		a = []string{"stage", "remove"}
+	case "graph":
+		a = []string{"graph"}
+	case "push", "fetch":
+		a = []string{c.Kind}
+		if c.Single {
+			a = append(a, "--single-stage")
+		}
 	}
 	// targets are project-root relative in the model; on the command line they are given
 	// relative to the invocation directory
@@ -528,7 +542,7 @@ func (k CmdSem) shell() string {
 	for i, s := range k.Srcs {
 		srcs[i] = q(s)
 	}
-	return fmt.Sprintf("rm -f %s; mkdir -p %s; cat %s > %s; echo %s >> .runlog", q(k.Dst), q(filepath.Dir(k.Dst)), strings.Join(srcs, " "), q(k.Dst), q(k.Tag))
+	return fmt.Sprintf("rm -f %s && mkdir -p %s && cat %s > %s && echo %s >> .runlog", q(k.Dst), q(filepath.Dir(k.Dst)), strings.Join(srcs, " "), q(k.Dst), q(k.Tag))
 }
 
 // status --debug JSON -> model status trees
@@ -640,15 +654,11 @@ func (p *Project) do(c Cmd, sems []CmdSem, specs []int, ref *Node, pre *World) (
 	if c.Kind == "status" && res.Exit == 0 {
 		t.Out, _ = parseStatusDebug(res.Stdout)
 	}
-	if c.Kind == "run" && res.Exit == 0 {
+	if c.Kind == "run" {
 		// the execution log is the suffix the commands appended to .runlog during this run
-		var before, after []byte
-		if n := pre.Root.get(".runlog"); n != nil {
-			before = n.Data
-		}
-		if n := post.Root.get(".runlog"); n != nil {
-			after = n.Data
-		}
+		before := p.lastRunlog
+		after, _ := os.ReadFile(filepath.Join(p.Root, ".runlog"))
+		p.lastRunlog = after
 		var tags []string
 		if len(after) >= len(before) {
 			for _, l := range strings.Split(strings.TrimSpace(string(after[len(before):])), "\n") {
